@@ -217,6 +217,7 @@ func c18Race(c *Ctx, name string, withStore bool, b vsched.Bounds) Sched {
 	cfg := c18Config(withStore)
 	return Sched{
 		Name:   name,
+		Opt:    vsched.Options{RecordBlocked: true},
 		Bounds: b,
 		Setup: func() ([]func(), func(*vsched.Exec) *vsched.Violation, func() string) {
 			key := "c18-nostore"
@@ -278,6 +279,27 @@ func c18Race(c *Ctx, name string, withStore bool, b vsched.Bounds) Sched {
 				for _, rid := range an.Order {
 					if an.Reqs[rid].Res.Status != 200 {
 						return &vsched.Violation{Sig: fmt.Sprintf("status-%d", an.Reqs[rid].Res.Status), Msg: rid}
+					}
+				}
+				// "neither blocks": while the purge call is running its thread never parks in a waiter channel and never
+				// waits for a lock whose owner is inside the origin
+				inOrigin := func(tid int, step int64) bool {
+					for _, iv := range an.Calls {
+						if iv.Call.Tid == tid && iv.Begin <= step && step <= iv.End {
+							return true
+						}
+					}
+					return false
+				}
+				for _, bo := range x.BlockedAt {
+					if bo.Tid != 2 || int64(bo.Step) < purgeBegin || int64(bo.Step) > purgeEnd {
+						continue
+					}
+					if bo.Op == vsched.OpRecvWait || bo.Op == vsched.OpSendWait {
+						return &vsched.Violation{Sig: "purge-waits-for-fetch", Msg: "the purge call parked in a waiter channel of the entry it purges: it returns only when the in-flight fetch ends"}
+					}
+					if bo.Owner >= 0 && inOrigin(bo.Owner, int64(bo.Step)) {
+						return &vsched.Violation{Sig: "purge-waits-for-fetch", Msg: fmt.Sprintf("the purge call waits for a lock held by thread %d, which is inside the origin", bo.Owner)}
 					}
 				}
 				if o := an.Reqs["other"].Res; o.XStatus != "hit" {
@@ -381,6 +403,40 @@ func init() {
 				}
 			}
 			st.States, st.Transitions, st.Nontrivial = st.Execs*5, st.Execs*5, st.Execs
+			st.NOutcomes = int(st.Execs)
+		}
+		// a purge of a key that is not cached, in a shard that is full: nobody else's entry goes
+		if c.Want("purge-absent-key-full-shard") && c.Shard == 0 {
+			st := c.Stat("purge-absent-key-full-shard", "enumeration")
+			st.Bounds = "one shard with limit 1..3 filled with that many keys; purge (named / all caches) of a key never requested; every resident key must still be a hit"
+			cfg := env.BasicConfig(config.CacheConfig{})
+			e := getEnv(cfg, "basic")
+			for limit := 1; limit <= 3; limit++ {
+				for _, form := range []string{"c1", ""} {
+					freshCaches(cfg)
+					oneShard("c1", limit, nil)
+					vtime.Set(vtime.Base)
+					e.Respond = func(oc *env.OriginCall) env.OriginResp { return env.Cacheable(oc, 600, "p") }
+					for i := 0; i < limit; i++ {
+						e.Do(env.Req{URI: fmt.Sprintf("/r%d", i), Rid: "fill"})
+					}
+					if err := env.AdminPurge(c.Shard, form, "GET a.com /never-requested"); err != nil {
+						c.Violation("purge-absent-key-full-shard", "purge-error", err.Error(), nil, nil, nil)
+						continue
+					}
+					e.Events()
+					for i := limit - 1; i >= 0; i-- {
+						r := e.Do(env.Req{URI: fmt.Sprintf("/r%d", i), Rid: "chk"})
+						st.Execs++
+						if r.XStatus != "hit" {
+							c.Violation("purge-absent-key-full-shard", "purge-removed-other-entry", fmt.Sprintf("shard limit %d, %d resident keys: after purging a key that was never cached (cache parameter %q) /r%d is labelled %s", limit, limit, form, i, r.XStatus), nil, map[string]interface{}{"limit": limit, "form": form}, nil)
+							break
+						}
+					}
+					e.Events()
+				}
+			}
+			st.States, st.Transitions, st.Nontrivial = st.Execs, st.Execs, st.Execs
 			st.NOutcomes = int(st.Execs)
 		}
 		// the answer to the purge request means the purge is done — also when the store is slow to delete
